@@ -134,6 +134,14 @@ CLAIMS = {
         "~15-line two-body wiring (library elements + library kepler_equation), math.fsum for the direct summation.",
    technique="TLA+ orbit laws as invariants/action properties over time-ordered traces; verified witnesses; one harness-oracle clause",
    ref="5/C07"),
+ "C11": dict(
+   text="Kepler.tla states Kepler's equation, the half-revolution law and the true-anomaly relation as polynomial identities over "
+        "sine/cosine/square-root witnesses that the spec verifies (s^2+c^2 = 1, w^2(1-e) = 1+e), plus vis-viva, orbit-length "
+        "bounds, phase-angle/illuminated-fraction and node-passage relations; Sinnott's bisection is model-checked on an abstract "
+        "monotone function for every root position; TLC judges every recorded call in exact fixed point.",
+   note="Trusted: TLC, Fix.tla, IEEE math.sin/cos/sqrt for the witnesses (constrained by the identities checked in the spec).",
+   technique="TLA+ polynomial identities over verified transcendental witnesses; bisection model-checked; trace validation",
+   ref="5/C11"),
 }
 
 PENDING_REASON = "check not built yet in this round (specification module planned in DESIGN.md section 5); not claimed until its trace specification validates the unchanged tree"
